@@ -1,2 +1,46 @@
-(** C02 (placeholder statements are filled in below) *)
-From Coq Require Import List NArith.
+(** C02 — every written file is structurally valid Parquet with a truthful footer.
+    Statements only.  Validity is *defined* by the independent validator
+    [FileSpec.check_file] (the same function the check applies to the real
+    files).  Proved so far about the writer model ([Writer.v]): the footer's
+    offsets, sizes and row counts agree with the bytes written, for every
+    configuration and every list of batches (PQ.WriterProofs); the page-,
+    chunk- and file-level acceptance by [check_file] is in PQ.PageProofs /
+    PQ.ValidatorProofs and is added below as it lands. *)
+From Coq Require Import List NArith ZArith.
+From PQ Require Import Bytes Schema MetaTypes Writer WriterProofs.
+Import ListNotations.
+Local Open Scope N_scope.
+
+(** Every offset and byte size in the footer is the truth about the file: the
+    j-th column chunk of the i-th row group starts exactly where the footer
+    says (file_offset = data_page_offset = the length of everything before its
+    first page header = 4 + earlier batches + earlier columns of this batch),
+    its total_compressed_size is the number of bytes its pages occupy, and the
+    row group's total_byte_size is the number of bytes of the row group. *)
+Theorem C02_offsets_truthful : forall compress cfg bs i j b c,
+  nth_error bs i = Some b ->
+  nth_error (columns (cfg_fields cfg)) j = Some c ->
+  let pages := column_pages compress cfg j c b in
+  let fm := footer_meta cfg (map (fun b => snd (write_batch compress cfg b)) bs) in
+  exists rg cc cm pre post,
+    nth_error (fm_row_groups fm) i = Some rg /\
+    nth_error (rg_columns rg) j = Some cc /\
+    cc_meta cc = Some cm /\
+    cm_path cm = c_path c /\
+    file_of_batches compress cfg bs = pre ++ chunk_bytes pages ++ post /\
+    cc_file_offset cc = Z.of_N (nlen pre) /\
+    cm_data_page_offset cm = Z.of_N (nlen pre) /\
+    nlen pre = batch_start compress cfg bs i + col_start compress cfg b j /\
+    cm_total_compressed cm = Z.of_N (nlen (chunk_bytes pages)) /\
+    rg_total_byte_size rg = Z.of_N (batch_len (write_batch compress cfg b)).
+Proof. exact offsets_truthful. Qed.
+Print Assumptions C02_offsets_truthful.
+
+(** Row counts: one row group per batch, rows = batch size, file num_rows = total. *)
+Theorem C02_row_counts_truthful : forall compress cfg bs,
+  let rgs := map (fun b => snd (write_batch compress cfg b)) bs in
+  length (fm_row_groups (footer_meta cfg rgs)) = length bs /\
+  map rg_num_rows (fm_row_groups (footer_meta cfg rgs)) = map (fun b => Z.of_nat (length b)) bs /\
+  fm_num_rows (footer_meta cfg rgs) = Z.of_nat (length (concat bs)).
+Proof. exact footer_truthful. Qed.
+Print Assumptions C02_row_counts_truthful.
